@@ -361,6 +361,11 @@ func genStrings(c *genCtx, sw *shardWriter, j *jb) {
 		runStr(sw, j, in, slacks[c.rng.Intn(len(slacks))], c.st)
 		// the bytes between the quotes, on their own
 		t := bytes.TrimLeft(in, " \t\r\n")
+		if len(t) >= 1 && t[0] == '"' && c.rng.Intn(4) == 0 {
+			// everything after the opening quote, closing quote and tail included (not well-formed
+			// content: only totality applies, and it reaches the machine's rejecting transitions)
+			runUnesc(sw, j, t[1:], []byte{}, 0, c.st)
+		}
 		if len(t) >= 2 && t[0] == '"' {
 			if e := bytes.LastIndexByte(t, '"'); e > 0 {
 				runUnesc(sw, j, t[1:e], []byte{}, slacks[c.rng.Intn(len(slacks))], c.st)
